@@ -446,7 +446,8 @@ impl<'a> ListStylist<'a> {
                 if !sty.no_indent {
                     inner = inner.nest(indent as isize);
                 }
-                if is_single && sty.omit_delim_single {
+                if is_single && sty.omit_delim_single && !self.has_comment {
+                    // Without comments the single item is always folded, so the delimiters are never missed.
                     inner.group()
                 } else if sty.omit_delim_flat {
                     inner
